@@ -99,6 +99,39 @@ def usage_sites(items):
     return sites
 
 
+def redefinition_job(seed, n):
+    """A constant may be defined again in terms of its own earlier value (the running-offset idiom `OFF = OFF + 4`): every definition
+    is evaluated in order, a field constant captures the value of the moment, the dictionary ends with the last value."""
+    import random
+    a = env.load_asm()
+    res = env.Result()
+    rnd = random.Random(seed)
+    for _ in range(n):
+        lines, exp = ['OFF_RUN = %d' % 0], {}
+        cur = 0
+        for k in range(rnd.randrange(2, 7)):
+            lines.append('FIELD_%d = OFF_RUN' % k)
+            exp['FIELD_%d' % k] = cur
+            step = rnd.choice([1, 2, 4, 4, 8, 16, 3])
+            form = rnd.randrange(3)
+            lines.append(['OFF_RUN = OFF_RUN + %d' % step, 'OFF_RUN = %d + OFF_RUN' % step, 'OFF_RUN = (OFF_RUN + %d)' % step][form])
+            cur += step
+        exp['OFF_RUN'] = cur
+        lines.append('SIZE_ALL = OFF_RUN')
+        exp['SIZE_ALL'] = cur
+        lines.append('dw SIZE_ALL')
+        src = '\n'.join(lines) + '\n'
+        res.evaluations += 1
+        r = progcheck.assemble(a, src, False)
+        if r[0] != 'ok':
+            res.fail('redefinition:refused', 'a program that re-defines a constant from its own earlier value is refused: %s\n%s' % (str(r[1])[-160:], src), {'kind': 'text', 'source': src, 'expect': exp})
+        elif {k: r[3].get(k) for k in exp} != exp or r[1] != cur.to_bytes(4, 'little'):
+            res.fail('redefinition:value', 'constants after %r are %r, sequential evaluation gives %r' % (src, {k: r[3].get(k) for k in exp}, exp), {'kind': 'text', 'source': src, 'expect': exp})
+        else:
+            res.nontrivial_count += 1
+    return res
+
+
 def judge(prog, res):
     a = _prog.get_asm()
     res.evaluations += 1
@@ -198,6 +231,7 @@ def run(tier):
                 'registers written literally, both compression modes. (2) all 95 printable ASCII character literals in 4 contexts. '
                 'non-trivial = expression depth >= 2 or a non-immediate usage site; distinct by (source, mode)')
     chk.merge(env.run_shards(chars_job, [(tier,)]))
+    chk.merge(env.run_shards(redefinition_job, [(env.derive(chk.seed, PROP, 'redef', i), {'quick': 40, 'thorough': 2000}[tier]) for i in range(4)]))
     progcheck.run_sharded(chk, PROP, PROFILE, N[tier], 'judge', __name__)
     return chk.finish()
 
@@ -205,6 +239,15 @@ def run(tier):
 def replay(path):
     with open(path) as f:
         body = json.load(f)
+    if body['case'].get('kind') == 'text':
+        a = env.load_asm()
+        r = progcheck.assemble(a, body['case']['source'], False)
+        exp = body['case']['expect']
+        if r[0] != 'ok' or {k: r[3].get(k) for k in exp} != exp:
+            print('VIOLATION property=%s replay=%s' % (PROP, path))
+            return env.EXIT_VIOLATION
+        print('replay holds: %s' % path)
+        return env.EXIT_OK
     if body['case'].get('kind') == 'char':
         a = env.load_asm()
         consts = {}
